@@ -376,6 +376,9 @@ async fn process_commit(
         );
         new_current_line_map.extend(current_lines);
         current_source.line_map = new_current_line_map;
+        // An omitted parent is never visited, so it has lines only if it was
+        // already counted as an unresolved root.
+        let is_new_root = parent_source.line_map.is_empty();
         parent_source.line_map = if parent_source.line_map.is_empty() {
             new_parent_line_map
         } else {
@@ -393,7 +396,9 @@ async fn process_commit(
                     line_number: parent_line_number,
                 });
             }
-            state.num_unresolved_roots += 1;
+            if is_new_root {
+                state.num_unresolved_roots += 1;
+            }
         }
     }
 
